@@ -94,6 +94,15 @@ func (g *gen) rule(group, id string) ruleSpec {
 		r.Iso = "zone"
 		r.Labels = []string{"zone", "host"}
 	}
+	if g.rng.Intn(14) == 0 {
+		// items that contain the separators of common serialised forms
+		r.Labels = [][]string{{"zone,host"}, {"zone", "host,rack"}, {"a|b", "c;d"}}[g.rng.Intn(3)]
+		r.Cons = []consSpec{{Key: "k;1", Op: "in", Values: []string{"a|b", "c,d"}}}
+		r.Iso = ""
+	}
+	if g.rng.Intn(40) == 0 && r.Role != "leader" {
+		r.Count = math.MaxInt64 - g.rng.Intn(2) // sums of counts overflow: at most an unnecessary rejection (counted)
+	}
 	if g.rng.Intn(25) == 0 {
 		switch g.rng.Intn(7) {
 		case 0:
